@@ -15,10 +15,11 @@ EXTENDS AgonesProps, Json, IOUtils, TLC
 Recs == ndJsonDeserialize(IOEnv.TRACE)
 Prop == IOEnv.PROP
 
-VARIABLE n
-Init == n = 0
-Next == n < Len(Recs) /\ n' = n + 1
-Spec == Init /\ [][Next]_n
+\* (not called n: AgonesProps has operator parameters of that name, which would disable TLC's constant caching)
+VARIABLE pos
+Init == pos = 0
+Next == pos < Len(Recs) /\ pos' = pos + 1
+Spec == Init /\ [][Next]_pos
 
 MinOf(S) == CHOOSE x \in S : \A y \in S : x <= y
 
@@ -26,12 +27,12 @@ MinOf(S) == CHOOSE x \in S : \A y \in S : x <= y
 Failing(R) == {<<cl, i>> \in ClauseNames(Prop) \X (1..Len(R.offered)) :
                  Judged(R.steps, i) /\ ~Clause(cl, R, i)}
 
-\* always TRUE; prints the failing clauses of record n at its first failing step
-Judge == n >= 1 =>
-           LET R == Recs[n]  bad == Failing(R) IN
+\* always TRUE; prints the failing clauses of record pos at its first failing step
+Judge == pos >= 1 =>
+           LET R == Recs[pos]  bad == Failing(R) IN
            \/ bad = {}
            \/ LET first == MinOf({x[2] : x \in bad}) IN
-              PrintT(<<"FAIL", ToJson([line |-> n, step |-> first,
+              PrintT(<<"FAIL", ToJson([line |-> pos, step |-> first,
                                        clauses |-> {x[1] : x \in {y \in bad : y[2] = first}},
                                        expected |-> Expected(R.steps, first),
                                        expectedheld |-> Expected(R.steps, LastObserved(R.steps, first)),
